@@ -1331,6 +1331,281 @@ Qed.
 End Stream.
 
 (* ------------------------------------------------------------------------------------ *)
+(* 18. multipart/form-data: printer / parser round trip, visibility of the parts         *)
+(* ------------------------------------------------------------------------------------ *)
+
+Definition mp_name_ok (s : bytes) : bool := forallb (fun c => negb (c =? 13) && negb (c =? 10)) s.
+(* the delimiter CRLF "--" boundary occurs in CRLF ++ content ++ delimiter at the end only (the
+   CRLF in front: a content that starts with "--" boundary right after the blank line of the
+   headers is a delimiter too) *)
+Definition mp_content_ok (b c : bytes) : bool :=
+  match mp_find (mp_delim b) (dc_crlf ++ c ++ mp_delim b) with
+  | Some (a, t) => bytes_eqb a (dc_crlf ++ c) && dc_is_empty t
+  | None => false
+  end.
+Definition mp_part_ok (b : bytes) (p : mpart) : bool :=
+  mp_name_ok (mp_name p) && mp_name_ok (mp_filename p) && mp_content_ok b (mp_content p).
+
+Lemma strip_app p s : dc_strip p (p ++ s) = Some s.
+Proof. induction p as [|x p IH]; [reflexivity|]. cbn [app dc_strip]. now rewrite N.eqb_refl. Qed.
+
+Lemma scan_quote s rest : mp_name_ok s = true ->
+  mp_scan_quoted (mp_quote s ++ 34 :: rest) = Some (s, rest).
+Proof.
+  induction s as [|c s IH]; intro H.
+  - cbn. reflexivity.
+  - cbn [mp_name_ok forallb] in H. apply andb_true_iff in H as [Hc Hs]. specialize (IH Hs).
+    apply andb_true_iff in Hc as [H13 H10]. apply negb_true_iff in H13, H10.
+    unfold mp_quote. cbn [flat_map]. fold (mp_quote s).
+    destruct (c =? 92) eqn:E92.
+    + apply N.eqb_eq in E92. subst c. cbn [orb app mp_scan_quoted].
+      change (92 =? 34) with false. change (92 =? 92) with true. cbv iota.
+      change (mp_is_tspecial 92) with true. cbv iota. now rewrite IH.
+    + destruct (c =? 34) eqn:E34.
+      * apply N.eqb_eq in E34. subst c. cbn [orb app mp_scan_quoted].
+        change (92 =? 34) with false. change (92 =? 92) with true. cbv iota.
+        change (mp_is_tspecial 34) with true. cbv iota. now rewrite IH.
+      * cbn [orb app mp_scan_quoted]. rewrite E34, E92, H13, H10. cbn [orb]. now rewrite IH.
+Qed.
+
+Lemma is_prefix_self d t : is_prefix d (d ++ t) = true.
+Proof. induction d as [|x d IH]; [reflexivity|]. cbn [app is_prefix]. now rewrite N.eqb_refl. Qed.
+
+Lemma is_prefix_app_len d : forall s t, (length d <= length s)%nat -> is_prefix d (s ++ t) = is_prefix d s.
+Proof.
+  induction d as [|x d IH]; intros s t H; [reflexivity|].
+  destruct s as [|y s]; [cbn in H; lia|]. cbn [app is_prefix]. rewrite IH; [reflexivity|]. cbn in H. lia.
+Qed.
+
+Lemma skipn_app_self {A} (d t : list A) : skipn (length d) (d ++ t) = t.
+Proof. induction d; [reflexivity|]. cbn. assumption. Qed.
+
+Lemma find_inv_cons d x s a t : mp_find d (x :: s) = Some (x :: a, t) -> mp_find d s = Some (a, t).
+Proof.
+  cbn [mp_find]. destruct (is_prefix d (x :: s)); [discriminate|].
+  destruct (mp_find d s) as [[a' t']|]; [|discriminate]. intro H. inversion H; subst. reflexivity.
+Qed.
+
+Lemma find_extend d c rest : d <> [] ->
+  mp_find d (c ++ d) = Some (c, []) -> mp_find d (c ++ d ++ rest) = Some (c, rest).
+Proof.
+  intros Hd. induction c as [|x c IH]; intro H.
+  - cbn [app]. destruct d as [|y d]; [congruence|].
+    change ((y :: d) ++ rest) with (y :: (d ++ rest)). cbn [mp_find].
+    change (y :: d ++ rest) with ((y :: d) ++ rest). rewrite is_prefix_self, skipn_app_self. reflexivity.
+  - change ((x :: c) ++ d) with (x :: (c ++ d)) in H.
+    pose proof H as H0. cbn [mp_find] in H0.
+    destruct (is_prefix d (x :: c ++ d)) eqn:E; [discriminate|].
+    apply find_inv_cons in H. specialize (IH H).
+    change ((x :: c) ++ d ++ rest) with (x :: (c ++ d ++ rest)). cbn [mp_find].
+    assert (E2 : is_prefix d (x :: c ++ d ++ rest) = false).
+    { change (x :: c ++ d ++ rest) with ((x :: c) ++ d ++ rest). rewrite app_assoc.
+      rewrite is_prefix_app_len; [exact E|]. rewrite app_length. lia. }
+    rewrite E2, IH. reflexivity.
+Qed.
+
+Lemma content_find b c rest : mp_content_ok b c = true ->
+  mp_find (mp_delim b) (c ++ mp_delim b ++ rest) = Some (c, rest).
+Proof.
+  unfold mp_content_ok. intro H.
+  destruct (mp_find (mp_delim b) (dc_crlf ++ c ++ mp_delim b)) as [[a t]|] eqn:E; [|discriminate].
+  apply andb_true_iff in H as [Ha Ht]. apply bytes_eqb_eq in Ha. subst a.
+  destruct t; [|discriminate]. unfold dc_crlf in E. cbn [app] in E.
+  apply find_inv_cons in E. apply find_inv_cons in E.
+  apply find_extend; [discriminate|exact E].
+Qed.
+
+Ltac strip_step :=
+  match goal with |- context [dc_strip ?p (?q ++ ?x)] =>
+    let H := fresh in assert (H : dc_strip p (q ++ x) = Some x) by exact (strip_app q x); rewrite H; clear H end.
+Ltac scan_step Hn :=
+  match goal with |- context [mp_scan_quoted (mp_quote ?n ++ 34 :: ?x)] =>
+    let H := fresh in assert (H : mp_scan_quoted (mp_quote n ++ 34 :: x) = Some (n, x)) by exact (scan_quote n x Hn); rewrite H; clear H end.
+
+Lemma parse_part_print b p rest : mp_part_ok b p = true ->
+  mp_parse_part (mp_delim b) (mp_part_bytes b p ++ rest) = Some (p, rest).
+Proof.
+  unfold mp_part_ok. intro H. apply andb_true_iff in H as [H Hc]. apply andb_true_iff in H as [Hn Hf].
+  destruct p as [name fn content]. cbn [mp_name mp_filename mp_content] in *.
+  unfold mp_parse_part, mp_part_bytes, mp_disp, mp_is_file. cbn [mp_name mp_filename mp_content].
+  destruct fn as [|f0 fn'] eqn:Efn.
+  - cbn [dc_is_empty negb]. 
+    repeat rewrite <- app_assoc.
+    change (dc_crlf ++ str "Content-Disposition: " ++ str "form-data; name=" ++ [34] ++ mp_quote name ++ [34] ++ [] ++ [] ++ dc_crlf ++ dc_crlf ++ content ++ mp_delim b ++ rest)
+      with ((dc_crlf ++ str "Content-Disposition: form-data; name=" ++ [34]) ++ mp_quote name ++ 34 :: dc_crlf ++ dc_crlf ++ content ++ mp_delim b ++ rest).
+    strip_step. scan_step Hn.
+    change (dc_strip (str "; filename=" ++ [34]) (dc_crlf ++ dc_crlf ++ content ++ mp_delim b ++ rest)) with (@None bytes).
+    cbv iota.
+    change (dc_crlf ++ dc_crlf ++ content ++ mp_delim b ++ rest) with ((dc_crlf ++ dc_crlf) ++ content ++ mp_delim b ++ rest).
+    strip_step. rewrite content_find by exact Hc. reflexivity.
+  - rewrite <- Efn in *. assert (Hne : dc_is_empty fn = false) by (subst fn; reflexivity).
+    rewrite Hne. cbn [negb].
+    repeat rewrite <- app_assoc.
+    change (dc_crlf ++ str "Content-Disposition: " ++ str "form-data; name=" ++ [34] ++ mp_quote name ++ [34] ++ str "; filename=" ++ [34] ++ mp_quote fn ++ [34] ++ dc_crlf ++ str "Content-Type: " ++ mp_ctype ++ dc_crlf ++ dc_crlf ++ content ++ mp_delim b ++ rest)
+      with ((dc_crlf ++ str "Content-Disposition: form-data; name=" ++ [34]) ++ mp_quote name ++ 34 :: (str "; filename=" ++ [34]) ++ mp_quote fn ++ 34 :: (dc_crlf ++ str "Content-Type: " ++ mp_ctype ++ dc_crlf ++ dc_crlf) ++ content ++ mp_delim b ++ rest).
+    strip_step. scan_step Hn. strip_step.
+    scan_step Hf. strip_step. rewrite content_find by exact Hc. reflexivity.
+Qed.
+
+Lemma part_bytes_head b p t : exists r, mp_part_bytes b p ++ t = 13 :: r.
+Proof. unfold mp_part_bytes, dc_crlf. cbn [app]. eexists. reflexivity. Qed.
+
+Lemma parse_parts_print b parts : forall fuel,
+  forallb (mp_part_ok b) parts = true -> (length parts < fuel)%nat ->
+  mp_parse_parts fuel (mp_delim b) (flat_map (mp_part_bytes b) parts ++ [45; 45; 13; 10]) = Some parts.
+Proof.
+  induction parts as [|p parts IH]; intros fuel H L.
+  - destruct fuel; [lia|]. reflexivity.
+  - destruct fuel; [cbn in L; lia|]. cbn [forallb] in H. apply andb_true_iff in H as [Hp Hs].
+    cbn [flat_map mp_parse_parts]. rewrite <- app_assoc.
+    destruct (part_bytes_head b p (flat_map (mp_part_bytes b) parts ++ [45; 45; 13; 10])) as [r Er].
+    assert (Hne : bytes_eqb (mp_part_bytes b p ++ flat_map (mp_part_bytes b) parts ++ [45; 45; 13; 10]) [45; 45; 13; 10] = false).
+    { rewrite Er. reflexivity. }
+    rewrite Hne. rewrite parse_part_print by exact Hp.
+    rewrite IH; [reflexivity|exact Hs|cbn in L; lia].
+Qed.
+
+Lemma flat_map_length_ge {A} (f : A -> bytes) l : (forall x, f x <> []) -> (length l <= length (flat_map f l))%nat.
+Proof.
+  intro H. induction l as [|x l IH]; [cbn; lia|]. cbn [flat_map length]. rewrite app_length.
+  specialize (H x). destruct (f x); [congruence|]. cbn. lia.
+Qed.
+
+(* the specification parser reads back exactly the parts that were printed *)
+Theorem multipart_roundtrip b parts :
+  forallb (mp_part_ok b) parts = true -> mp_parse b (mp_print b parts) = Some parts.
+Proof.
+  intro H. unfold mp_parse, mp_print. rewrite app_assoc.
+  match goal with |- context [dc_strip ?p (?q ++ ?x)] =>
+    assert (E : dc_strip p (q ++ x) = Some x) by exact (strip_app q x); rewrite E; clear E end.
+  apply parse_parts_print; [exact H|].
+  rewrite !app_length. pose proof (flat_map_length_ge (mp_part_bytes b) parts) as G.
+  assert (forall x, mp_part_bytes b x <> []) as G0.
+  { intros x E. destruct (part_bytes_head b x []) as [r Er]. rewrite app_nil_r in Er. congruence. }
+  specialize (G G0). lia.
+Qed.
+
+(* ---- what the processor's loop leaves in the variables ---- *)
+Section MpCollect.
+Variable fold : bytes -> bytes.
+
+Definition mp_fields (parts : list mpart) : list kv :=
+  map (fun p => (mp_name p, mp_content p)) (filter (fun p => negb (mp_is_file p)) parts).
+Definition mp_uploads (parts : list mpart) : list mpart := filter mp_is_file parts.
+Definition mp_total (parts : list mpart) : nat :=
+  fold_left (fun n p => (n + length (mp_content p))%nat) parts 0%nat.
+
+Lemma cm_add_find_all m k v : Permutation (cm_find_all (cm_add fold m k v)) (cm_find_all m ++ [(k, v)]).
+Proof. unfold cm_add. apply bucket_add_flat. Qed.
+
+Lemma collect_gen parts : forall v,
+  let r := fold_left (mp_step fold) parts v in
+  Permutation (cm_find_all (mv_post r)) (cm_find_all (mv_post v) ++ mp_fields parts) /\
+  Permutation (cm_find_all (mv_files r)) (cm_find_all (mv_files v) ++ map (fun p => ([], mp_filename p)) (mp_uploads parts)) /\
+  Permutation (cm_find_all (mv_files_names r)) (cm_find_all (mv_files_names v) ++ map (fun p => ([], mp_name p)) (mp_uploads parts)) /\
+  mv_combined r = fold_left (fun n p => (n + length (mp_content p))%nat) parts (mv_combined v).
+Proof.
+  induction parts as [|p parts IH]; intro v; cbn [fold_left].
+  - unfold mp_fields, mp_uploads. cbn. rewrite !app_nil_r. auto.
+  - specialize (IH (mp_step fold v p)). cbv zeta in IH. destruct IH as (A & B & C & D).
+    unfold mp_fields, mp_uploads in *. cbn [filter]. unfold mp_step in *.
+    destruct (mp_is_file p) eqn:E; cbn [negb map mv_post mv_files mv_files_names mv_combined] in *.
+    + repeat split.
+      * exact A.
+      * rewrite B, cm_add_find_all, <- app_assoc. reflexivity.
+      * rewrite C, cm_add_find_all, <- app_assoc. reflexivity.
+      * exact D.
+    + repeat split.
+      * rewrite A, cm_add_find_all, <- app_assoc. reflexivity.
+      * exact B.
+      * exact C.
+      * exact D.
+Qed.
+
+(* every field is in ARGS_POST byte-exact, every upload in FILES (file name) and FILES_NAMES
+   (form name), FILES_COMBINED_SIZE is the number of content bytes of all parts (as coded:
+   fields included) *)
+Theorem multipart_collect_visible parts :
+  let r := mp_collect fold parts in
+  Permutation (cm_find_all (mv_post r)) (mp_fields parts) /\
+  Permutation (cm_find_all (mv_files r)) (map (fun p => ([], mp_filename p)) (mp_uploads parts)) /\
+  Permutation (cm_find_all (mv_files_names r)) (map (fun p => ([], mp_name p)) (mp_uploads parts)) /\
+  mv_combined r = mp_total parts.
+Proof. unfold mp_collect. apply (collect_gen parts (mk_mpv [] [] [] [] 0%nat [])). Qed.
+
+(* end to end: a printed body is parsed and exposed as the part list says *)
+Theorem multipart_body_visible b parts :
+  forallb (mp_part_ok b) parts = true ->
+  exists q, mp_parse b (mp_print b parts) = Some q /\
+    let r := mp_collect fold q in
+    Permutation (cm_find_all (mv_post r)) (mp_fields parts) /\
+    Permutation (cm_find_all (mv_files r)) (map (fun p => ([], mp_filename p)) (mp_uploads parts)) /\
+    Permutation (cm_find_all (mv_files_names r)) (map (fun p => ([], mp_name p)) (mp_uploads parts)) /\
+    mv_combined r = mp_total parts.
+Proof.
+  intro H. exists parts. split; [now apply multipart_roundtrip|]. apply multipart_collect_visible.
+Qed.
+
+Definition mp_size_entries (parts : list mpart) : list kv :=
+  map (fun p => (mp_filename p, itoa (N.of_nat (length (mp_content p))))) (mp_uploads parts).
+
+Lemma collect_sizes parts : forall v,
+  mv_files_sizes (fold_left (mp_step fold) parts v) = json_apply fold (mv_files_sizes v) (mp_size_entries parts).
+Proof.
+  unfold json_apply, mp_size_entries, mp_uploads.
+  induction parts as [|p parts IH]; intro v; cbn [fold_left filter map]; [reflexivity|].
+  rewrite IH. unfold mp_step. destruct (mp_is_file p); cbn [mv_files_sizes map fold_left fst snd]; reflexivity.
+Qed.
+
+(* FILES_SIZES holds the size of every upload under its file name when no two file names
+   coincide after case folding (SetIndex(filename, 0, size) overwrites otherwise) *)
+Theorem multipart_sizes_visible parts :
+  nodup_b (map (fun p => fold (mp_filename p)) (mp_uploads parts)) = true ->
+  cm_find_all (mv_files_sizes (mp_collect fold parts)) = mp_size_entries parts.
+Proof.
+  intro H. apply nodup_b_NoDup in H. unfold mp_collect. rewrite collect_sizes.
+  cbn [mv_files_sizes]. rewrite json_apply_nodup; [reflexivity|].
+  cbn [map app]. unfold mp_size_entries. rewrite map_map. cbn [fst]. exact H.
+Qed.
+
+(* Content-Type: multipart/form-data... selects the MULTIPART processor *)
+Theorem multipart_ct_selected cookie_ord ct :
+  is_prefix dc_ct_multipart (lower_ascii ct) = true ->
+  select_processor (v_rbp (add_request_header fold cookie_ord txv_empty (str "Content-Type"%string) ct)) = PMultipart.
+Proof.
+  intro H. unfold add_request_header.
+  change (dc_is_empty (str "Content-Type")) with false. cbv iota.
+  change (bytes_eqb (lower_ascii (str "Content-Type")) (str "content-type")) with true. cbv iota.
+  destruct (bytes_eqb (dc_media_type (lower_ascii ct)) dc_ct_urlencoded) eqn:E.
+  - (* a value cannot both start with multipart/form-data and have the urlencoded media type *)
+    exfalso. apply bytes_eqb_eq in E.
+    destruct (lower_ascii ct) as [|c0 l]; [discriminate|].
+    change dc_ct_multipart with (109 :: tl dc_ct_multipart) in H.
+    cbn [is_prefix] in H. apply andb_true_iff in H as [H0 _]. apply N.eqb_eq in H0.
+    subst c0. unfold dc_media_type in E. cbn [dc_cut] in E. change (109 =? 59) with false in E.
+    cbv iota in E. destruct (dc_cut 59 l) as [[a b0] f]. unfold dc_trim_space in E.
+    cbn [dc_drop_space] in E. change (dc_is_space 109) with false in E. cbv iota in E.
+    assert (Hd : forall rs, exists t, dc_drop_space (rs ++ [109]) = t ++ [109]).
+    { induction rs as [|x rs IH]; [exists []; reflexivity|]. cbn [app dc_drop_space].
+      destruct (dc_is_space x); [exact IH|]. exists (x :: rs). reflexivity. }
+    cbn [rev] in E. destruct (Hd (rev a)) as [t Et]. rewrite Et in E.
+    rewrite rev_app_distr in E. cbn [rev app] in E. discriminate.
+  - rewrite H. reflexivity.
+Qed.
+
+End MpCollect.
+
+Example multipart_guard_example :
+  forallb (mp_part_ok (str "XbX"%string))
+    [mk_mpart (str "q""uote;semi\back"%string) [] (str "--XbX"%string ++ [13; 10; 45; 45] ++ str "Xb"%string);
+     mk_mpart (str "up"%string) (str "C:\dir\e"".php"%string) ([13; 10] ++ str "-- line"%string ++ [0; 255])] = false
+  /\
+  forallb (mp_part_ok (str "XbX"%string))
+    [mk_mpart (str "q""uote;semi\back"%string) [] (str "x--XbX"%string ++ [13; 10; 45; 45] ++ str "Xb"%string);
+     mk_mpart (str "up"%string) (str "C:\dir\e"".php"%string) ([13; 10] ++ str "-- line"%string ++ [0; 255])] = true.
+Proof. vm_compute. auto. Qed.
+
+(* ------------------------------------------------------------------------------------ *)
 (* 13. statements as used in Props/C03.v                                                 *)
 (* ------------------------------------------------------------------------------------ *)
 
